@@ -158,6 +158,9 @@ DESIGS = ["LMT", "UTC", "CET", "CEST", "EST", "EDT", "+03", "-0330", "+1245", "A
 
 
 def rand_type(rng, offs="small"):
+    if offs != "full" and rng.random() < 0.05:
+        # the placeholder of tzdata for "local time unspecified": an ordinary type like any other (offset 0, standard, "-00")
+        return {"off": 0, "dst": 0, "des": B("-00")}
     if offs == "small":
         off = rng.choice([0, 3600, -3600, 7200, -18000, 19800, 45900, -1, 1, 59, -59, 60, 86399, -86399, rng.randint(-50000, 50000)])
     elif offs == "tiny":
